@@ -653,6 +653,21 @@ func Run(r *vf.Run) {
 	progs := make([]*gen.Program, n)
 	for i := range progs {
 		progs[i] = gen.ExecProgram(r.Rand("prog", i), gen.ExecOpts{})
+		// add the hand-designed shape families to every program
+		if withT, err := gen.ProgramFromSource(r.Rand("tplvec", i), progs[i].Source+shapeTemplates(r.Rand("tpl", i)), 10); err == nil {
+			// keep the generator's own vectors for its functions
+			own := map[string][][]gen.Arg{}
+			for _, f := range progs[i].Funcs {
+				own[f.Name] = f.Vectors
+			}
+			for k := range withT.Funcs {
+				if v, ok := own[withT.Funcs[k].Name]; ok {
+					withT.Funcs[k].Vectors = v
+				}
+			}
+			withT.Driver = gen.ExecDriver(withT.Funcs, withT.Globals)
+			progs[i] = withT
+		}
 	}
 	results := make([]*Result, n)
 	workers := runtime.GOMAXPROCS(0)
